@@ -61,9 +61,17 @@ pub struct Inner {
     /// other threads are runnable, and of a spurious condvar wake-up
     pub p_timer: u64,
     pub p_spurious: u64,
+    pub p_preempt: u64,
+    /// threads preempted right now while holding a mutex: locked blocks stay instantaneous, no
+    /// timer fires early and no spurious wake-up happens meanwhile
+    pub holding: usize,
     pub steps: u64,
     pub max_steps: u64,
     pub aborted: bool,
+    /// the driver thread was part of a deadlock: the scenario is abandoned
+    pub deadlocked: bool,
+    /// the driver thread's closure has returned
+    pub driver_done: bool,
     /// threads that ended by panicking (counted whether or not the event log is on)
     pub panics: usize,
     /// PCT-like bias: a thread that is "preferred" keeps the baton with this probability (per 1000)
@@ -72,6 +80,8 @@ pub struct Inner {
 
 pub struct Runtime {
     pub inner: StdMutex<Inner>,
+    /// signalled when the driver thread has finished or has been deadlocked
+    pub done: StdCondvar,
 }
 
 thread_local! {
@@ -95,13 +105,15 @@ pub struct Config {
     pub p_timer: u64,
     pub p_spurious: u64,
     pub p_stay: u64,
+    /// per mille: a thread that has just taken a mutex is preempted while holding it
+    pub p_preempt: u64,
     pub max_steps: u64,
     pub log: bool,
 }
 
 impl Default for Config {
     fn default() -> Self {
-        Config { seed: 1, p_timer: 30, p_spurious: 0, p_stay: 0, max_steps: 2_000_000, log: true }
+        Config { seed: 1, p_timer: 30, p_spurious: 0, p_stay: 0, p_preempt: 0, max_steps: 2_000_000, log: true }
     }
 }
 
@@ -183,7 +195,7 @@ impl Inner {
                 self.threads.iter().enumerate().filter(|(_, t)| t.state == TState::Runnable).map(|(i, _)| i).collect();
             if !runnable.is_empty() {
                 // occasionally let time pass although somebody could run
-                if self.p_timer > 0 {
+                if self.p_timer > 0 && self.holding == 0 {
                     if let Some((tid, d)) = self.earliest_timer() {
                         if (self.rand() % 1000) < self.p_timer {
                             self.fire_timer(tid, d);
@@ -195,6 +207,7 @@ impl Inner {
                 // (only while the driver thread is settling: once it has been told that everything is
                 // quiet, what it observes must stay as it is)
                 if self.p_spurious > 0
+                    && self.holding == 0
                     && matches!(&self.threads[0].state, TState::Blocked { on: Res::Settle, .. })
                     && (self.rand() % 1000) < self.p_spurious
                 {
@@ -263,12 +276,17 @@ impl Runtime {
                 next_id: 0,
                 p_timer: cfg.p_timer,
                 p_spurious: cfg.p_spurious,
+                p_preempt: cfg.p_preempt,
+                holding: 0,
                 steps: 0,
                 max_steps: cfg.max_steps,
                 aborted: false,
+                deadlocked: false,
+                driver_done: false,
                 panics: 0,
                 p_stay: cfg.p_stay,
             }),
+            done: StdCondvar::new(),
         })
     }
 
@@ -290,6 +308,15 @@ impl Runtime {
         }
         if g.aborted {
             // step budget exhausted: only the driver thread keeps running
+            if me == 0 && matches!(g.threads[0].state, TState::Blocked { on: Res::Mutex(_), .. }) {
+                // ... unless it needs a lock that one of the stopped threads holds
+                g.deadlocked = true;
+                self.done.notify_all();
+                let cv = g.threads[me].cv.clone();
+                loop {
+                    g = cv.wait(g).unwrap();
+                }
+            }
             if me == 0 {
                 g.threads[0].state = TState::Running;
                 g.current = 0;
@@ -306,6 +333,19 @@ impl Runtime {
         if next.is_none() && !g.aborted {
             // global deadlock including the driver thread: cannot continue
             if me == 0 || matches!(g.threads[0].state, TState::Blocked { .. }) {
+                if std::env::var("VERIF_RT_DEADLOCK_EXIT").is_err() {
+                    // the code under test has deadlocked the driver thread with it (for instance the
+                    // driver took a lock that a thread blocked for ever still holds): the scenario
+                    // is over.  `run` (waiting on the real main thread) is told; every controlled
+                    // thread, the driver included, sleeps for ever and is abandoned
+                    g.aborted = true;
+                    g.deadlocked = true;
+                    self.done.notify_all();
+                    let cv = g.threads[me].cv.clone();
+                    loop {
+                        g = cv.wait(g).unwrap();
+                    }
+                }
                 eprintln!("CHECK-ERROR verif_rt: the driver thread is blocked and nothing can run (use settle())");
                 if std::env::var("VERIF_DEBUG").is_ok() {
                     for (i, t) in g.threads.iter().enumerate() {
@@ -340,6 +380,20 @@ impl Runtime {
                 return g.threads[me].wake;
             }
             g = cv.wait(g).unwrap();
+        }
+    }
+
+    /// after taking a mutex: with probability `p_preempt` the thread is preempted while holding it
+    pub fn maybe_preempt(&self, me: usize) {
+        let go = {
+            let mut g = self.inner.lock().unwrap();
+            g.p_preempt > 0 && !g.aborted && (g.rand() % 1000) < g.p_preempt
+        };
+        if go {
+            self.log(me, "preempted".into());
+            self.inner.lock().unwrap().holding += 1;
+            self.switch(me, TState::Runnable);
+            self.inner.lock().unwrap().holding -= 1;
         }
     }
 
@@ -400,12 +454,39 @@ pub struct Report {
 /// Runs `f` as controlled thread 0 under a fresh runtime.  Threads that are still blocked or
 /// runnable when `f` returns are abandoned (they sleep forever on their private condvar): run
 /// batches of scenarios in a child process.
-pub fn run<R, F: FnOnce() -> R>(cfg: &Config, f: F) -> (R, Report) {
+pub fn run<R: Send + 'static, F: FnOnce() -> R + Send + 'static>(cfg: &Config, f: F) -> (R, Report) {
+    match try_run(cfg, f) {
+        (Some(r), rep) => (r, rep),
+        // unwinds the CALLER's frames only: the scenario's own frames (and the library objects on
+        // them) live on the abandoned driver thread
+        (None, _) => panic!("verif_rt: deadlock involving the driver thread"),
+    }
+}
+
+/// As `run`, on a separate OS thread: if the code under test deadlocks the driver thread with it,
+/// the whole scenario (driver thread included) is abandoned and `None` is returned with a report
+/// whose `aborted` is set.
+pub fn try_run<R: Send + 'static, F: FnOnce() -> R + Send + 'static>(cfg: &Config, f: F) -> (Option<R>, Report) {
     let rt = Runtime::new(cfg);
     let tid = rt.register("main".into(), TState::Running);
-    set_current(rt.clone(), tid);
-    let r = f();
-    let g = rt.inner.lock().unwrap();
+    let result: Arc<StdMutex<Option<R>>> = Arc::new(StdMutex::new(None));
+    let (rt2, res2) = (rt.clone(), result.clone());
+    std::thread::Builder::new()
+        .stack_size(8 << 20)
+        .spawn(move || {
+            set_current(rt2.clone(), tid);
+            let r = f();
+            *res2.lock().unwrap() = Some(r);
+            CUR.with(|c| *c.borrow_mut() = None);
+            let mut g = rt2.inner.lock().unwrap();
+            g.driver_done = true;
+            rt2.done.notify_all();
+        })
+        .expect("spawn driver thread");
+    let mut g = rt.inner.lock().unwrap();
+    while !g.driver_done && !g.deadlocked {
+        g = rt.done.wait(g).unwrap();
+    }
     let rep = Report {
         events: g.events.clone(),
         clock: g.clock,
@@ -413,8 +494,9 @@ pub fn run<R, F: FnOnce() -> R>(cfg: &Config, f: F) -> (R, Report) {
         aborted: g.aborted,
         panics: g.panics,
     };
+    let finished = g.driver_done;
     drop(g);
-    CUR.with(|c| *c.borrow_mut() = None);
+    let r = if finished { result.lock().unwrap().take() } else { None };
     (r, rep)
 }
 
